@@ -409,6 +409,14 @@ def rule_structure(ctx) -> None:
         adv = bool(loops_p) and any(isinstance(s, ast.AugAssign) and norm(s) == "index += boot_section.raw_size" for s in loops_p[0].body)
         chk.decide(bool(loops_e) and bool(loops_p) and adv, "C04.loop-symmetry", f"{IMG}::{cn}", "sections are exported in a loop and parsed in a loop that advances by each section's raw size",
                    f"export loops {len(loops_e)}, parse loops {len(loops_p)}, advance {adv}", "a collection exported by iteration is parsed by iteration", A.loc(IMG, pa.node))
+        # the loop bound is the MAC-protected block count of the header; it is never weakened by the length of the data in hand
+        if loops_p:
+            t = A.inline_locals(pa.node, loops_p[0].test, keep=("header",))
+            tn = norm(t)
+            weak = "len(data)" in tn or "min(" in tn
+            uses_hdr = "header.image_blocks" in tn
+            chk.decide(uses_hdr and not weak, "C04.truncation", f"{IMG}::{cn}.parse loop bound", "sections are read up to the block count of the authenticated header; a shorter file fails inside a section parser or an explicit length check",
+                       f"loop condition `{tn}`: the bound follows the data length, so a file cut at a section boundary is returned with fewer sections", "while index < <header.image_blocks * block size>", A.loc(IMG, loops_p[0]))
     # signed data: V2.1 signs exactly the accumulator it emits before the signature; parse verifies data[offset:signature_index]
     ex = ctx.own(IMG, "BootImageV21", "export")
     sig = [c for c in A.calls_in(ex.node, "get_signature")]
